@@ -26,7 +26,7 @@ STAT_NAMES = {32: 'ctx_cache_off', 33: 'ctx_cache_default', 34: 'inputs_with_deb
               38: 'policy_verifications', 39: 'policy_result_ok', 40: 'policy_result_na', 41: 'policy_result_fail', 42: 'sig_reparse_ok',
               43: 'pdu_with_response', 44: 'sig_built_from_response', 45: 'tlvelement_serialized', 46: 'tlvelement_detached',
               47: 'uri_endpoint_configs', 48: 'skipped_entry_quarantined', 49: 'skipped_blocklisted', 50: 'mut_structural', 51: 'mut_plain',
-              52: 'mut_text', 53: 'mut_crossover', 54: 'render_left_buffer_unterminated'}
+              52: 'mut_text', 53: 'mut_crossover', 54: 'render_left_buffer_unterminated', 55: 'tlvelement_walk_stopped_by_work_budget'}
 MAXLEN = 70001
 JOBS = 16
 M64 = (1 << 64) - 1
@@ -308,8 +308,8 @@ def fuzz_job(ctx, exe, j, new_budget, seeds_dir, nseeds, blockfile, pre_mask, wa
         seed = (ctx.seed * 1000003 + j * 7919 + r * 104729) % 2147483647 or 1
         statf = os.path.join(ctx.work, 'stats-%d-%d.bin' % (j, r))
         have = len(os.listdir(corp))
-        cmd = [exe, '-runs=%d' % (nseeds + have + remaining), '-seed=%d' % seed, '-max_len=%d' % MAXLEN, '-timeout=25', '-rss_limit_mb=4096',
-               '-artifact_prefix=%s/j%d-r%d-' % (art, j, r), '-print_final_stats=1', '-detect_leaks=1', '-report_slow_units=20', corp, seeds_dir]
+        cmd = [exe, '-runs=%d' % (nseeds + have + remaining), '-seed=%d' % seed, '-max_len=%d' % MAXLEN, '-timeout=60', '-rss_limit_mb=4096',
+               '-artifact_prefix=%s/j%d-r%d-' % (art, j, r), '-print_final_stats=1', '-detect_leaks=1', '-report_slow_units=30', corp, seeds_dir]
         env = fuzz_env(ctx, C12_STATS=statf, C12_SKIP_ENTRIES=res['skip_mask'], C12_BLOCKLIST=blockfile, C12_DUMP_DIR=art)
         rc, out, err = ctx.run(cmd, timeout=watchdog, env=env)
         st = read_stats(statf)
@@ -372,13 +372,13 @@ def triage(ctx, exe, crash):
     if not art or not crash['data']:
         return crash['key'], top_of_report(crash['err']), False
     t0 = time.time()
-    rc, out, err = ctx.run([exe, '-timeout=60', '-rss_limit_mb=4096', '-detect_leaks=1', art], timeout=600,
+    rc, out, err = ctx.run([exe, '-timeout=120', '-rss_limit_mb=4096', '-detect_leaks=1', art], timeout=900,
                            env=fuzz_env(ctx, C12_PROBE_EVERY=1, C12_DUMP_DIR=os.path.join(ctx.work, 'art')))
     dt = time.time() - t0
     k2 = crash_key(err) if rc not in (0,) else None
     if crash['key'] and crash['key'].startswith('timeout:'):
         if k2 and k2.startswith('timeout:'):
-            return k2, top_of_report(err) + '\n(alone: still running after 60 s)', True
+            return k2, top_of_report(err) + '\n(alone: still running after 120 s)', True
         if rc == 0:
             return None, 'time-out under load not reproduced alone (%.1fs)' % dt, False
     if k2:
@@ -425,7 +425,7 @@ def run(ctx):
     ctx.assumptions = ['ASan/UBSan/LSan builds of the library (clang for generation, gcc for replay); clang pointer-overflow check off (NULL+0)',
                        'no network or file access possible: no service or publications URL configured on the parsing contexts',
                        'unterminated output of a renderer given a too small buffer is counted, not flagged (the renderer itself made no bad access)',
-                       'libFuzzer -timeout=25 s per input; a time-out counts only if the input alone still runs longer than 60 s']
+                       'libFuzzer -timeout=60 s per input; a time-out counts only if the input executed alone still runs after 120 s']
     findings = Findings()
     suspects = []
     GLOBAL_HITS.clear()
